@@ -24,6 +24,9 @@ VARIABLES l, st
 Fresh(e) == [job |-> e.job, run |-> e.run, checker |-> IF Has(e.cfg, "checker") THEN e.cfg.checker ELSE "none",
              cur |-> <<>>, vec |-> <<>>, fds |-> {}, peak |-> 0, opens |-> <<>>, base |-> <<>>, viol |-> {}, nops |-> 0, lastret |-> <<>>]
 InLib(e) == e.ph \in {"lib", "cb"}
+\* first component of a directory id ("D10/.kismet_0001" -> "D10")
+RootOf(d) == LET cut == {i \in 1..Len(d) : SubSeq(d, i, i) = "/"} IN
+             IF cut = {} THEN d ELSE SubSeq(d, 1, (CHOOSE i \in cut : \A j \in cut : i <= j) - 1)
 PrivDir(d) == Suffix(d, 12) = ".kismet_temp" \/ d = "SRC" \/ d = "TMP"
 
 Step(s, e) ==
@@ -32,7 +35,8 @@ Step(s, e) ==
         LET vec2 == Put(s.vec, e.call, Get(s.vec, e.call, 0) + 1)
             fds2 == IF e.call = "open" /\ e.res = "ok" THEN s.fds \cup {e.fd}
                     ELSE IF e.call = "close" THEN s.fds \ {e.fd} ELSE s.fds
-            opens2 == IF e.call = "open" /\ Has(e, "path") THEN Put(s.opens, e.path.d, Get(s.opens, e.path.d, 0) + 1) ELSE s.opens
+            \* open attempts are counted per cache directory = per root (a sharded root is ONE cache directory: one attempt per candidate shard)
+            opens2 == IF e.call = "open" /\ Has(e, "path") THEN Put(s.opens, RootOf(e.path.d), Get(s.opens, RootOf(e.path.d), 0) + 1) ELSE s.opens
             limit == IF s.checker = "none" THEN 2 ELSE 3
             v1 == IF Cardinality(fds2) > limit THEN {<<e.seq, "FdBound">>} ELSE {}
             v2 == IF e.call = "lock" THEN {<<e.seq, "NoLocks">>} ELSE {}
